@@ -17,6 +17,25 @@ def handle (line : String) : Json :=
         let T := if getStr? j "mode" == some "spec" then Reference.tables else Generated.tables
         Json.mkObj [("out", Json.arr (runProg T ops).toArray)]
       | none => errJson .badOp
+    | some "npunit" =>
+      -- C10: unit returned by a numpy function on Arrays (model: as coded; spec: dimensional analysis)
+      let parsed : Option (String × DType × U × List (Option U) × Rat × NpClass) := do
+        let name ← getStr? j "name"
+        let dt ← (getStr? j "resdt").bind DType.fromString?
+        let su ← (getField? j "self").bind U.fromJson?
+        let argsJ ← getArr? j "args"
+        let args ← argsJ.mapM fun (a : Json) => match a with
+          | .null => some none
+          | x => (U.fromJson? x).map some
+        let k := (getRat? j "k").getD 1
+        let cls ← (getStr? j "cls").bind NpClass.fromString?
+        pure (name, dt, su, args, k, cls)
+      match parsed with
+      | some (name, dt, su, args, k, cls) =>
+        let enc (o : Option UPow) : Json := match o with | some p => p.toJson | none => Json.str "refuse"
+        Json.mkObj [("model", enc (npUnit Generated.tables name dt su args k)),
+                    ("spec", enc (specUnit cls name args k))]
+      | none => errJson .badOp
     | some "consts" =>
       -- Spec oracle for C08: does a reported constant agree with the reference table?
       match getArr? j "consts" with
